@@ -5,3 +5,4 @@ import LeraxProofs.C06
 import LeraxProofs.C09
 import LeraxProofs.C04
 import LeraxProofs.C05
+import LeraxProofs.C07
